@@ -201,6 +201,9 @@ def ser_value(v, sigidx):
         return f"(c {v.value} {v.shape().width} {'s' if v.shape().signed else 'u'})"
     if isinstance(v, A.Signal):
         return f"(sig {sigidx[id(v)]})"
+    if type(v).__name__ == "_Row":
+        # a memory row read or written from a testbench: a signal of the row's shape for the model
+        return f"(sig {sigidx[('row', id(v._memory), v._index)]})"
     if isinstance(v, A.Operator):
         op = v.operator
         args = " ".join(ser_value(o, sigidx) for o in v.operands)
